@@ -679,9 +679,6 @@ func (cs *contractSet) newAnalysis() *Analysis {
 	A.scope = cs.inSc
 	A.tables = cs.tables
 	A.ifaceLenEqParam = cs.iface
-	for _, fn := range cs.scope {
-		A.fa(fn).installPres()
-	}
 	return A
 }
 
@@ -695,45 +692,168 @@ func returnsOf(fn *ssa.Function) []*ssa.Return {
 	return out
 }
 
-// houdini drops every post-condition candidate that cannot be proved.
-func (cs *contractSet) houdini() *Analysis {
-	for {
-		cs.rounds++
-		A := cs.newAnalysis()
-		changed := false
-		for _, fn := range cs.scope {
-			ct := cs.cts[fn]
-			fa := A.fa(fn)
-			for _, p := range ct.Posts {
-				if p.Dead {
-					continue
-				}
-				for _, ret := range returnsOf(fn) {
-					g, f, ok := p.formula(ct, fa.calleeEnv(ret))
-					if !ok {
-						p.Dead = true
-						changed = true
-						break
-					}
-					good := true
-					for _, goal := range f {
-						if !fa.prove(goal, ret.Block(), rootCtx.with(g, nil)) {
-							good = false
-							break
-						}
-					}
-					if !good {
-						p.Dead = true
-						changed = true
-						break
+// sccOrder returns the strongly connected components of the static call graph
+// restricted to the scope, callees first.
+func (cs *contractSet) sccOrder() [][]*ssa.Function {
+	idx := map[*ssa.Function]int{}
+	low := map[*ssa.Function]int{}
+	on := map[*ssa.Function]bool{}
+	var stack []*ssa.Function
+	var out [][]*ssa.Function
+	n := 0
+	callees := func(fn *ssa.Function) []*ssa.Function {
+		var cs2 []*ssa.Function
+		for _, b := range fn.Blocks {
+			for _, in := range b.Instrs {
+				if c, ok := in.(ssa.CallInstruction); ok {
+					if cal := c.Common().StaticCallee(); cal != nil && cs.inSc[cal] {
+						cs2 = append(cs2, cal)
 					}
 				}
 			}
 		}
-		if !changed {
-			return A
+		return cs2
+	}
+	var strong func(v *ssa.Function)
+	strong = func(v *ssa.Function) {
+		idx[v], low[v] = n, n
+		n++
+		stack = append(stack, v)
+		on[v] = true
+		for _, w := range callees(v) {
+			if _, ok := idx[w]; !ok {
+				strong(w)
+				if low[w] < low[v] {
+					low[v] = low[w]
+				}
+			} else if on[w] && idx[w] < low[v] {
+				low[v] = idx[w]
+			}
+		}
+		if low[v] == idx[v] {
+			var comp []*ssa.Function
+			for {
+				w := stack[len(stack)-1]
+				stack = stack[:len(stack)-1]
+				on[w] = false
+				comp = append(comp, w)
+				if w == v {
+					break
+				}
+			}
+			out = append(out, comp)
 		}
 	}
+	for _, fn := range cs.scope {
+		if _, ok := idx[fn]; !ok {
+			strong(fn)
+		}
+	}
+	return out
+}
+
+// houdiniOn (re-)establishes the contracts of the functions in dirty (nil =
+// all). The components of the call graph are processed callees first, so that
+// a function is analysed once its callees' contracts are final; only recursive
+// components are re-analysed until their own contracts are stable.
+func (cs *contractSet) houdiniOn(A *Analysis, dirty map[*ssa.Function]bool) {
+	for _, comp := range cs.sccOrder() {
+		touched := dirty == nil
+		for _, fn := range comp {
+			if dirty[fn] {
+				touched = true
+			}
+		}
+		if !touched {
+			continue
+		}
+		recursive := len(comp) > 1
+		if !recursive {
+			for _, b := range comp[0].Blocks {
+				for _, in := range b.Instrs {
+					if c, ok := in.(ssa.CallInstruction); ok && c.Common().StaticCallee() == comp[0] {
+						recursive = true
+					}
+				}
+			}
+		}
+		for _, fn := range comp {
+			for _, p := range cs.cts[fn].Posts {
+				p.Dead = false
+			}
+			A.dropFA(fn)
+		}
+		for {
+			cs.rounds++
+			changed := false
+			for _, fn := range comp {
+				ct := cs.cts[fn]
+				fa := A.fa(fn)
+				for _, p := range ct.Posts {
+					if p.Dead {
+						continue
+					}
+					for _, ret := range returnsOf(fn) {
+						g, f, ok := p.formula(ct, fa.calleeEnv(ret))
+						good := ok
+						if ok {
+							for _, goal := range f {
+								if !fa.prove(goal, ret.Block(), rootCtx.with(g, nil)) {
+									good = false
+									break
+								}
+							}
+						}
+						if !good {
+							p.Dead = true
+							changed = true
+							break
+						}
+					}
+				}
+			}
+			if !changed || !recursive {
+				break
+			}
+			// the facts attached from the dropped contracts of the component are stale: rebuild it
+			for _, fn := range comp {
+				A.dropFA(fn)
+			}
+		}
+	}
+}
+
+func (cs *contractSet) houdini() *Analysis {
+	A := cs.newAnalysis()
+	cs.houdiniOn(A, nil)
+	return A
+}
+
+// callersClosure returns fns plus all their transitive callers inside the scope.
+func (cs *contractSet) callersClosure(fns map[*ssa.Function]bool) map[*ssa.Function]bool {
+	out := map[*ssa.Function]bool{}
+	for f := range fns {
+		out[f] = true
+	}
+	for changed := true; changed; {
+		changed = false
+		for _, fn := range cs.scope {
+			if out[fn] {
+				continue
+			}
+			for _, b := range fn.Blocks {
+				for _, in := range b.Instrs {
+					if c, ok := in.(ssa.CallInstruction); ok {
+						if cal := c.Common().StaticCallee(); cal != nil && out[cal] {
+							out[fn] = true
+							changed = true
+						}
+					}
+				}
+			}
+		}
+	}
+	return out
 }
 
 func newContractSet(P *Program, scope []*ssa.Function) *contractSet {
